@@ -80,7 +80,12 @@ manifest = {
     "2 = ANALYSIS-ERROR (vanished anchor, unparsable source, instance count below the confirmed "
     "floor, missed seeded fault). Each claimed property is claimed only for the structural "
     "clauses named in its level text (necessary conditions), never for the behaviour as a whole; "
-    "see DESIGN.md.",
+    "see DESIGN.md. Tiers: quick = the obligations on the current tree; thorough = quick plus self-validation on "
+    "in-memory variants of the sources (nothing is written to /repo): per-rule seeded faults and repair twins, the "
+    "red-team edits (sa/redteam_cases.py), every stored breaking change of the property (seeded/, seeded_pyx/: must "
+    "raise a new finding or stop the analysis), every stored behaviour-preserving refactoring that touches a file the "
+    "property reads (benign/: must stay silent) and whole-file rewrites (reformat, rename all locals, yoda constants, "
+    "unused local); a missed breaking variant or an alarm on a preserving one fails the thorough run as ANALYSIS-ERROR.",
     "not_applicable": [
         {"property_id": p, "reason": NOT_APPLICABLE[p]} for p in props if p in NOT_APPLICABLE
     ],
